@@ -35,7 +35,12 @@ dead solver is saved / pickled / deep-copied / SHALLOW-copied afterwards.  Stage
 (and before the first Step) / at one boundary; the continued copy must be the uninterrupted run and count what it
 evaluates.  Correspondence `sticky`: the REAL `_process_inputs` of the four solvers, called the way Step(**kw) and
 Solve(**kw) call it, interleaved with attribute assignments and pickle / copy round trips, against `deStepKw` /
-`deSolveKw` / `step2Kw` / `solve2Kw`; `alias` now also takes shallow copies (`shallowCopy`)."""
+`deSolveKw` / `step2Kw` / `solve2Kw`; `alias` now also takes shallow copies (`shallowCopy`).
+
+Stream `reconf` (harness/c06_reconf.py): runs whose evaluation / step monitor, limits, penalty are changed BETWEEN the Steps (the
+evaluation monitor then holds fewer / more records than the counter says), checkpointed at every boundary and continued with the
+objective handed over again (Step(cost) / Solve(cost), ExtraArgs): the restored solver re-decorates, the uninterrupted one does not.
+`alias` takes `(setmon i new k)` = SetEvaluationMonitor in the middle of the run (Model/CheckpointMon.lean, Props/C06Mon.lean)."""
 import os, sys, io, time, json, copy, random as _random, tempfile, shutil, hashlib, contextlib, collections
 import numpy as np
 import common
@@ -62,7 +67,9 @@ THEOREMS = ["MysticVerif.C06." + t for t in [
     "shallow_copy_private_counter_stops_counting", "shallow_copy_witness",
     "solve_kwds_resume_de", "solve_kwds_resume_2", "de_writeback_must_be_the_setting_in_force",
     "solve_kwds_custom_strategy_not_resumed", "solve_kwds_resume_de_repassed",
-    "steps_resume", "solve_resume", "solve_stable"]]
+    "steps_resume", "solve_resume", "solve_stable",
+    "setmon_keeps_count", "setmon_redecorate_counts", "resume_redecorated_equals_uninterrupted", "resume_after_monitor_change",
+    "decorate_from_monitor_agrees_when_complete", "decorate_from_monitor_length_does_not_resume"]]
 
 PATHS = ("saveload", "dill", "deepcopy", "periodic")
 
@@ -1868,7 +1875,7 @@ def alias_case(rng, hist):
         obs.append([(int(s.evaluations), len(s._evalmon), linked_bits(s)) for s in objs])
         for _ in range(rng.randint(3, 10)):
             k = rng.random(); i = rng.randrange(len(objs)); s = objs[i]
-            if k < 0.40:
+            if k < 0.36:
                 m = rng.randint(1, 4)
                 ACTOR[0] = "alias%d" % i
                 c0 = CALLS[(ACTOR[0], "cost")]
@@ -1877,10 +1884,21 @@ def alias_case(rng, hist):
                 assert CALLS[(ACTOR[0], "cost")] - c0 == m
                 ACTOR[0] = "-"
                 ops.append("(call %d %d)" % (i, m))
-            elif k < 0.55:
+            elif k < 0.50:
                 s._live = False           # what Finalize() leaves behind (Powell's own Finalize also logs a record)
                 s._bootstrap_objective()
                 ops.append("(decorate %d)" % i)
+            elif k < 0.60:
+                # the evaluation monitor is replaced in the middle of the run: SetEvaluationMonitor(m, new), m empty or already
+                # holding records; from here on the monitor's length and the counter are unrelated numbers, and the
+                # objective keeps writing into the OLD monitor until the next re-decoration (Model/CheckpointMon.lean)
+                nw = rng.random() < 0.6; pre = rng.choice([0, 0, 0, 2, 9])
+                mon = Monitor()
+                for t in range(pre):
+                    mon([float(t), 0.0], 100.0 + t)
+                s.SetEvaluationMonitor(mon, new=nw)
+                ops.append("(setmon %d %s %d)" % (i, "true" if nw else "false", pre))
+                hist["alias:setmon:new=%s:%s" % (nw, "prefilled" if pre else "empty")] = hist.get("alias:setmon:new=%s:%s" % (nw, "prefilled" if pre else "empty"), 0) + 1
             elif k < 0.80 and len(objs) < 6:
                 if rng.random() < 0.5:
                     c = dill.loads(dill.dumps(s))
@@ -2114,8 +2132,26 @@ def run_shard(pid, seed, shard, ncases, tier, extra):
     nontrivial = 0; evals = 0
     only = (extra or {}).get("only")
     budget = (extra or {}).get("budget")
+    stream = (extra or {}).get("stream")
+    # ---------- stream `reconf` (harness/c06_reconf.py): runs whose monitors / limits / penalty are changed BETWEEN the Steps,
+    # checkpointed at every boundary, continued with the objective handed over again; its own time budget, run first
+    import c06_reconf
+    t0 = time.time()
+    nre = (extra or {}).get("nreconf", 10 if tier == "quick" else 16)
+    rbudget = (extra or {}).get("rbudget", 8 if tier == "quick" else 30)
+    for k in ([only] if stream == "reconf" else ([] if only is not None else range(nre))):
+        if time.time() - t0 > rbudget and k > 1 and only is None:
+            hist["reconf:cases-not-run-(time-budget)"] = hist.get("reconf:cases-not-run-(time-budget)", 0) + 1
+            continue
+        rng = case_rng(pid + "/reconf", seed, shard, k)
+        spec = c06_reconf.gen_case(rng, tier)
+        fs, nt = c06_reconf.run_case(spec, {"seed": seed, "shard": shard, "case": k, "tier": tier, "stream": "reconf"}, hist)
+        evals += 1; findings += fs; nontrivial += nt
+        hist["reconf:cases"] = hist.get("reconf:cases", 0) + 1
     t0 = time.time()
     ks = [only] if only is not None else range(ncases)
+    if stream == "reconf":
+        ks = []
     for k in ks:
         if budget and time.time() - t0 > budget and k > 0:
             hist["cases-not-run-(time-budget)"] = hist.get("cases-not-run-(time-budget)", 0) + 1
@@ -2167,7 +2203,7 @@ def main(tier, seed):
     t0 = time.time()
     proof = framework.proof_stage(PID, MODULE, THEOREMS, tier)
     if tier == "quick":
-        nshards, per, budget = 16, 26, 36
+        nshards, per, budget = 16, 26, 30           # (+ 8 s per shard for the stream `reconf`, run first)
     else:
         nshards, per, budget = 64, 24, 105
     run = framework.run_shards("c06", "run_shard", PID, seed, nshards, per, tier, extra={"budget": budget})
@@ -2192,20 +2228,27 @@ def main(tier, seed):
             "(rotating: SaveSolver | periodic dump, dill, deepcopy; thorough, runs of up to 14 generations: all three; runs longer than 24 generations: every 2nd / 3rd generation), restored and continued to termination by bare Solve() / Solve(callback) / Step() loop "
             "(rotating), compared generation by generation and at the end; (X) the call killed at one boundary, the dead solver saved / pickled / deep-copied / shallow-copied and "
             "each copy continued the same way. "
-            "non-trivial = at least 3 iterations really ran and at least one copy performed >= 2 further real iterations." % (12 if tier == "quick" else 60))
+            "Stream `reconf` (harness/c06_reconf.py; %d cases per shard, own time budget, run first): runs that are HISTORIES of Steps and reconfigurations - the evaluation monitor "
+            "attached / replaced some generations into the run (SetEvaluationMonitor(m, new=False|True), m = Monitor / VerboseMonitor / Null / a monitor already holding 2 or 40 records; 40%%: the run "
+            "STARTS with a monitor holding 3 or 60 foreign records), the step monitor replaced (new=False|True), SetEvaluationLimits(.., new=True) and SetPenalty between the Steps; ExtraArgs (0-2) handed to every Step; "
+            "so the evaluation monitor holds FEWER / MORE records than the counter says at the interruption point. Every boundary x {SaveSolver+LoadSolver, dill, deepcopy}; the restored solver continued by "
+            "Step() | Step(stored cost) | Step(by-reference cost + new equal ExtraArgs tuple) | Step(ONE new equal cost object) | Step(a new equal cost object every time) - the last three re-decorate in the restored solver only - "
+            "with the same later reconfigurations, compared with the uninterrupted run after every Step; real cost calls == growth of `evaluations` in every Step of a copy; at one boundary original and copies get "
+            "SetEvaluationLimits(generations=g, evaluations=e, new=True) and run to termination with Solve(cost[, ExtraArgs]) (the evaluation limit usually fires first), final states compared. "
+            "non-trivial = at least 3 iterations really ran and at least one copy performed >= 2 further real iterations." % (12 if tier == "quick" else 60, 10 if tier == "quick" else 16))
     tb = ["Lean 4.33 kernel; axioms per theorem under coverage.theorems (subset of propext, Classical.choice, Quot.sound)",
           "pickling itself (dill, copy.deepcopy, file IO) is NOT modelled: the clause 'a restore gives back the saved state' is checked by the monitor only",
           "Model/Checkpoint.lean / Model/PowellResume.lean snapshot records + model S are tied to /repo by restarting the model from the snapshot read off the restored REAL solver (histogram model:de-resume / nm-resume / ctl-resume / pw-resume*)",
           "Powell: Brent's line search is a recorded oracle (which points it evaluated, which it returned); everything else of _Step is recomputed by PowellS.stepAt from the PwSnap alone; the mid-iteration periodic dump is PowellS.midDump (model:pw-dump)",
           "PowellS.shallowCopyObj (two objects sharing one direction-set array) is the hypothesis of the witness powellS_shared_direc_not_independent only: object identity inside _Step is not observable through the copies the property talks about, so its agreement with the code is counted (pw-share:(informational)...) and never a verdict",
-          "the aliasing model (heap of counter / monitor cells) is tied to /repo by random decorate/call/pickle/deepcopy/copy.copy sequences on real solver objects (histogram model:alias)",
+          "the aliasing model (heap of counter / monitor cells) is tied to /repo by random decorate/call/pickle/deepcopy/copy.copy/SetEvaluationMonitor(m, new) sequences on real solver objects (histogram model:alias, alias:setmon:*); DifferentialEvolutionSolver2 is no object of that correspondence (it keeps its counter by hand: F62)",
           "the keyword-settings model (DESet.process / Set2.process, deStepKw / deSolveKw / step2Kw / solve2Kw) is tied to /repo by random sequences of the real _process_inputs called as Step(**kw) and Solve(**kw) call it, attribute assignments and pickle / copy round trips (histogram model:sticky); that Solve hands `settings` to every Step and Step hands its keywords to _process_inputs is read off abstract_solver.py l.1131 / l.1104 and exercised end to end by stage W only",
           "DE trial vectors are recorded from the real strategy",
           "attribution of cost calls to the solver being advanced is by a harness-global actor name (single-threaded runs)"]
     assumptions = ["cost / penalty / constraints are deterministic picklable callables (dill by value or by reference)",
                    "the random state restored with a copy is the state at the moment of the save (python random + numpy.random)",
                    "NaN energies excluded (such runs are skipped and counted)"]
-    extra_cov = {"exhaustive": True, "exhaustive_over": "generation boundaries of each Step()-driven run x {SaveSolver+LoadSolver, dill, deepcopy, every periodic dump written, copy.copy (chain)}; generation boundaries of each Solve()-driven run of up to 24 generations (longer, thorough only: every 2nd / 3rd) x one rotating checkpoint kind (thorough, up to 14 generations: all)"}
+    extra_cov = {"exhaustive": True, "exhaustive_over": "generation boundaries of each Step()-driven run x {SaveSolver+LoadSolver, dill, deepcopy, every periodic dump written, copy.copy (chain)}; generation boundaries of each Solve()-driven run of up to 24 generations (longer, thorough only: every 2nd / 3rd) x one rotating checkpoint kind (thorough, up to 14 generations: all); generation boundaries of each run of the stream `reconf` x {SaveSolver+LoadSolver, dill, deepcopy}"}
     return framework.finish(PID, tier, seed, t0, proof, run, rule, tb, assumptions, extra_cov=extra_cov, search_more=search_more)
 
 
@@ -2219,7 +2262,7 @@ def replay(path):
             print("model reply now: %s" % leandrv.run_driver([case["request"]])[0][:600])
         return 0
     os.environ["VERIF_SEED"] = str(gen["seed"])
-    out = run_shard(PID, gen["seed"], gen["shard"], 0, gen.get("tier", "quick"), {"only": gen["case"]})
+    out = run_shard(PID, gen["seed"], gen["shard"], 0, gen.get("tier", "quick"), {"only": gen["case"], "stream": gen.get("stream")})
     known = {e["class_key"] for e in framework.load_known(PID)}
     bad = 0
     seen = set()
